@@ -5,8 +5,10 @@ package fasthttp
 import (
 	"fmt"
 	"os"
+	"sort"
 	"strings"
 	"testing"
+	"time"
 
 	"github.com/valyala/fasthttp/internal/verif/mcrt"
 	"github.com/valyala/fasthttp/internal/verif/mcx"
@@ -51,6 +53,16 @@ func TestVerif_C37(t *testing.T) {
 	// schedules completely; the evidence lists, per scenario, the bound it completed, and the run is exhaustive:false
 	// when any cap was hit.
 	capExec := vrt.Pick(r, int64(1200), int64(15000))
+	// C37's own scenarios (the only ones for Client / HostClient monitors) go first and are bounded by their execution
+	// cap alone, never by the clock: what they explore must not depend on the load of the machine.
+	sort.SliceStable(scs, func(i, j int) bool {
+		return strings.HasPrefix(scs[i].Name, "C37/") && !strings.HasPrefix(scs[j].Name, "C37/")
+	})
+	for i := range scs {
+		if strings.HasPrefix(scs[i].Name, "C37/") {
+			scs[i].Cfg.Deadline = time.Now().Add(2 * time.Hour)
+		}
+	}
 	for i := range scs {
 		scs[i].RaceOnly = true
 		if scs[i].Cfg.Bound > bound {
